@@ -110,6 +110,10 @@ def r9(ctx, rule='C09.R9'):
     if md is None:
         return
     bodies = [md] + [lib.body(c) for c in lib.closures_of(md.path)]
+    # the sibling used when links are followed prunes by the exclude patterns only: the same predicate discipline applies
+    mdl = lib.body('selector::PathSelector::matches_dir_following_links')
+    if mdl is not None:
+        bodies += [mdl] + [lib.body(c) for c in lib.closures_of(mdl.path)]
     preds = []
     for b in bodies:
         for c in b.calls(r'Iterator>::(all|any)$|Iterator::(all|any)$'):
